@@ -355,6 +355,26 @@ func solveGroup(name string, g []*sym.Oblig, opt DischargeOpts) Outcome {
 			}
 		case "sat":
 			oc.Status = "failed"
+			// prefer a small counterexample (replayable without huge allocations): bound every length / capacity
+			// variable of the query and ask again; the first answer is kept if no small model exists
+			for _, lim := range []uint64{64, 4096} {
+				vs, _ := smt.CollectVars(full[ci])
+				var small []*smt.Term
+				for _, v := range vs {
+					if v.S.K == smt.KBV && v.S.W == 64 && (strings.Contains(v.Name, ".len!") || strings.Contains(v.Name, ".cap!") || strings.HasSuffix(v.Name, ".len") || strings.HasSuffix(v.Name, ".cap")) {
+						small = append(small, smt.ULe(v, smt.BVC(64, lim)))
+					}
+				}
+				if len(small) == 0 {
+					break
+				}
+				r2 := smt.Solve(append([]*smt.Term{smt.Or(full[ci]...)}, small...), smt.Options{Timeout: 5 * time.Second, Seed: opt.Seed, OnlyFirst: true})
+				oc.Seconds += r2.Seconds
+				if r2.Status == "sat" {
+					r = r2
+					break
+				}
+			}
 			oc.Model, oc.Arr, oc.Raw, oc.Script = r.Model, r.ArrModel, r.Raw, r.Script
 			oc.Backend = r.Solver
 			return oc
